@@ -149,7 +149,25 @@ func c10Exec(c histCase, x *pbt.Ctx) error {
 	return nil
 }
 
+// contract-heavy histories: two contract codes registered again and again on every branch, so that
+// a contract is registered in a common ancestor, on the abandoned branch and on the adopted branch
+func c10GenContracts(t *rapid.T) histCase {
+	opt := ck.GenOpt{MinBlocks: 6, MaxBlocks: 24, Epochs: []uint64{4}, Validators: []int{1, 3}}
+	c := histCase{Tree: ck.GenTree(t, opt)}
+	for i := range c.Tree.Blocks {
+		n := rapid.IntRange(0, 2).Draw(t, "nreg")
+		for k := 0; k < n; k++ {
+			c.Tree.Blocks[i].Txs = append(c.Tree.Blocks[i].Txs, ck.TxDesc{Kind: "register", Pick: []int{rapid.IntRange(0, 30).Draw(t, "rp")}, N: rapid.IntRange(0, 1).Draw(t, "code")})
+		}
+	}
+	c.Order = ck.GenOrder(t, len(c.Tree.Blocks), rapid.IntRange(0, 5).Draw(t, "shuffle") == 0)
+	c.Probe = rapid.IntRange(0, 50).Draw(t, "probe")
+	return c
+}
+
 func TestC10(t *testing.T) {
+	pbt.Run(t, "C10", "contract-heavy block trees of 6-24 blocks: two contract codes are registered repeatedly on every branch (common ancestor, abandoned branch, adopted branch); same oracle (contract table raw value = first registration on the main chain)",
+		pbt.Options{Sub: "contracts", Checks: pbt.Per(150, 24000)}, c10GenContracts, c10Exec)
 	pbt.Run(t, "C10", "block trees of 5-40 valid blocks (spends, coinbase spends, votes, vetoes, contract registrations, issuances; optional justifying signatures in checkpoint headers) delivered parents-first or shuffled; after every delivery the node's unspent set with constraint heights and its contract table equal the model fold of its main chain; then probe blocks (veto at/inside lock, immature coinbase, double spend...) get the same verdict from the history node, a fresh node fed only the main chain, and the model; non-trivial = a reorganisation detached a block spending a coinbase or vote output",
 		pbt.Options{Checks: pbt.Per(150, 24000), MinClass: map[string]int{"reorg-detaches-coinbase-or-vote-spend": 3}}, histGen(c10Opt), c10Exec)
 }
